@@ -532,6 +532,42 @@ impl NetworkTopology {
     }
 
     /// Finalize the topology and start mutliplexers and demultiplexers
+    /// Describe the links and the demultiplexer addresses, for the verification graph dump.
+    #[cfg(feature = "verif")]
+    #[allow(clippy::type_complexity)]
+    pub(crate) fn verif_dump(
+        &self,
+    ) -> (
+        Vec<crate::verif::LinkDump>,
+        Vec<((u64, u64, u64), (String, u16))>,
+    ) {
+        let mut links: Vec<_> = self
+            .next
+            .iter()
+            .flat_map(|(&(from, typ), to)| {
+                to.iter().map(move |&(to, fragile)| crate::verif::LinkDump {
+                    from: from.into(),
+                    to: to.into(),
+                    typ: format!("{typ:?}"),
+                    fragile,
+                })
+            })
+            .collect();
+        links.sort();
+        let mut addresses: Vec<_> = self
+            .demultiplexer_addresses
+            .iter()
+            .map(|(d, a)| {
+                (
+                    (d.coord.block_id, d.coord.host_id, d.prev_block_id),
+                    a.clone(),
+                )
+            })
+            .collect();
+        addresses.sort();
+        (links, addresses)
+    }
+
     pub fn finalize(&mut self) {
         // drop all the senders/receivers making sure no dangling sender keep alive their network
         // receivers.
